@@ -17,15 +17,20 @@ func TestC12(t *testing.T) {
 	const id = "C12"
 	checkWitnesses(t, id)
 	checkRegressions(t, id)
-	ev.Rule(id, "rapid-generated multi-package programs (all annotation kinds mixed, every site tagged; 30% of the chains without a file move carry a file-level @ignore header whose attachment to the package clause is reshaped) and chains of 1-3 transformations from: permute top-level declarations of a file, move a declaration to another (possibly new) file of the package, insert blank lines / ordinary comments, go/format, consistently rename parameters / receivers / locals (closure parameters deliberately shadow the receiver's name in the base). oracle = metamorphic: {(site tag, code)} equal before and after, for TONL01/PKGO01 {(using package, type)}; baseline from the real tool. non-trivial = chain that reorders declarations of a file holding a function and a package-level declaration with a site, moves a declaration to another file, or renames a shadowing variable - and the base has >=1 diagnostic; distinct by hash of (base, transformed)")
+	ev.Rule(id, "rapid-generated multi-package programs (all annotation kinds mixed, every site tagged; 30% of the chains without a file move carry a file-level @ignore header whose attachment to the package clause is reshaped) and chains of 1-3 transformations from: permute top-level declarations of a file, move a declaration to another (possibly new, possibly first-sorting) file of the package, rename a file so that it sorts first / last, insert blank lines / ordinary comments, go/format, consistently rename parameters / receivers / locals (closure parameters deliberately shadow the receiver's name in the base). oracle = metamorphic: {(site tag, code)} equal before and after, for TONL01/PKGO01 {(using package, type)}; baseline from the real tool. non-trivial = chain that reorders declarations of a file holding a function and a package-level declaration with a site, moves a declaration to another file, or renames a shadowing variable - and the base has >=1 diagnostic; distinct by hash of (base, transformed)")
 	cfg := engine.DefaultConfig()
 	rapid.Check(t, func(rt *rapid.T) {
-		p := proggen.Gen(rt, proggen.GenOpts{Focus: "all", MinPkgs: 1, MaxPkgs: 3, TestFiles: true, XTest: true, Aliases: true, Rich: true})
+		opts := proggen.GenOpts{Focus: "all", MinPkgs: 1, MaxPkgs: 3, TestFiles: true, XTest: true, Aliases: true, Rich: true}
+		if rapid.IntRange(0, 9).Draw(rt, "sameNameBias") < 3 {
+			// per-file facts (which package an import name denotes) must not leak between files
+			opts.SameName, opts.MinPkgs = true, 3
+		}
+		p := proggen.Gen(rt, opts)
 		n := rapid.IntRange(1, 3).Draw(rt, "chainLen")
 		kinds := make([]int, n)
 		moves := false
 		for i := range kinds {
-			kinds[i] = rapid.IntRange(0, 4).Draw(rt, "transform")
+			kinds[i] = rapid.IntRange(0, 5).Draw(rt, "transform")
 			moves = moves || kinds[i] == 1
 		}
 		// a file-level @ignore header (only when no declaration changes file: that
@@ -75,6 +80,8 @@ func TestC12(t *testing.T) {
 			case 4:
 				doFmt = true
 				info = proggen.TransformInfo{Label: "gofmt"}
+			case 5:
+				info = proggen.RenameFile(rt, p)
 			}
 			labels = append(labels, info.Label)
 			if info.Reordered || info.Moved || info.Unshadowed {
